@@ -941,11 +941,14 @@ class TypeBlocks(ContainerOperand):
         func = partial(np.round, decimals=decimals)
         # for now, we do not expose application of rounding on a subset of blocks, but is doable by setting the column_key
         blocks = list(self._ufunc_blocks(column_key=NULL_SLICE, func=func))
+        dtypes = []
         for b in blocks:
             b.flags.writeable = False
+            # rounding can change the dtype of a block (Booleans become floats)
+            dtypes.extend(b.dtype for _ in range(1 if b.ndim == 1 else b.shape[1]))
         return self.__class__(
                 blocks=blocks,
-                dtypes=self._dtypes.copy(), # list
+                dtypes=dtypes,
                 index=self._index.copy(),
                 shape=self._shape
                 )
